@@ -235,7 +235,7 @@ func init() {
 		o := o
 		p.Strata = append(p.Strata, mon.Stratum{
 			Name: "random/" + o.Name,
-			N:    qt(12000, 250000),
+			N:    qt(12000, 1250000),
 			Run: func(c *mon.Ctx, i int) {
 				prof := c01Profiles[i%len(c01Profiles)]
 				var a, b any
@@ -259,7 +259,7 @@ func init() {
 		o := o
 		p.Strata = append(p.Strata, mon.Stratum{
 			Name: "zero-signs/" + o.Name,
-			N:    qt(2000, 40000),
+			N:    qt(2000, 200000),
 			Run: func(c *mon.Ctx, i int) {
 				// 0 and -0 are the same number: a hunk that swaps one for the other reports no real difference
 				prof := gen.PTiny.With(func(p *gen.Profile) { p.Scalars = []any{0.0, math.Copysign(0, -1), 1.0, "a"} })
